@@ -417,7 +417,7 @@ class Prog:
         self.modular = {}
         self.dict_maker = None
         self.use_cvc5 = True
-        self.cvc5_ms = int(os.environ.get("PYVC_CVC5_MS", "20000"))
+        self.cvc5_ms = int(os.environ.get("PYVC_CVC5_MS", "8000"))
         self.stats = {"cvc5_calls": 0}
 
     def inline_spec(self, qual):
@@ -449,7 +449,7 @@ def cvc5_check(formulas, ms):
     for f in formulas:
         s.add(f)
     smt = s.to_smt2()
-    smt = "(set-logic ALL)\n(set-option :produce-models true)\n" + smt.replace("(check-sat)", "(check-sat)")
+    smt = "(set-logic ALL)\n(set-option :produce-models true)\n" + smt.replace("(check-sat)", "(check-sat)\n(get-model)")
     with tempfile.NamedTemporaryFile("w", suffix=".smt2", delete=False) as f:
         f.write(smt)
         path = f.name
@@ -460,7 +460,10 @@ def cvc5_check(formulas, ms):
         if first == "unsat":
             return ("cvc5", z3.unsat, None)
         if first == "sat":
-            return ("cvc5", z3.sat, {"cvc5": "sat (model not extracted)"})
+            model = {}
+            for m in re.finditer(r"\(define-fun\s+(\S+)\s+\(\)\s+(\S+)\s+(.*)\)\s*$", "\n".join(out[1:]), re.M):
+                model[m.group(1).strip("|")] = m.group(3).strip()
+            return ("cvc5", z3.sat, model or {"cvc5": "sat (model not extracted)"})
         return None
     except (subprocess.TimeoutExpired, OSError):
         return None
@@ -482,9 +485,10 @@ class Contract:
 REGISTRY = []
 
 
-def contract(qual, props, name=None, note=""):
+def contract(qual, props, name=None, note="", z3_ms=None):
     def deco(fn):
         c = Contract(qual, fn, props, name, note)
+        c.z3_ms = z3_ms      # per-query z3 budget; string-heavy contracts use a short one and let cvc5 take the unknowns
         REGISTRY.append(c)
         return fn
     return deco
@@ -710,6 +714,8 @@ def run_contract(prog_factory, con, max_paths=20000, budget_s=600):
     covers = set()
     while True:
         prog = prog_factory()
+        if getattr(con, "z3_ms", None):
+            prog.timeout_ms = con.z3_ms
         ctx = Ctx(prog, prefix)
         ctx.cname = con.name
         B = Builder(ctx, con)
